@@ -175,6 +175,33 @@ func (u *Unit) execInstr(fn *ssa.Function, st *State, ins ssa.Instruction) {
 		u.s.assume(eq(sx("closure_fn", id), intLit(u.eng.funcID(f))))
 		// closure values are negative; plain function values (literals without free variables) are their function ids
 		u.s.assume(sx("<", id, "0"))
+		// the values a closure captured are part of the closure value (binding k of sort S: closure_b$S(id, k))
+		for k, b := range x.Bindings {
+			if _, isLV := st.lvs[b]; isLV {
+				continue
+			}
+			bt, ok := st.regs[b]
+			if !ok {
+				if c, isC := b.(*ssa.Const); isC {
+					bt = u.constTerm(c)
+				} else {
+					continue
+				}
+			}
+			srt := u.ty.sortOf(b.Type())
+			// a variable captured by reference (its cell is what is bound): the closure value carries the cell's
+			// content at the time the closure is made (option constructors never assign their parameters afterwards)
+			if al, isAlloc := b.(*ssa.Alloc); isAlloc {
+				elemT := derefNamed(al.Type())
+				if _, isStruct := elemT.Underlying().(*types.Struct); !isStruct {
+					bt = u.load(st, u.lvForPointer(bt, elemT))
+					srt = u.ty.sortOf(elemT)
+				}
+			}
+			fn := "closure_b$" + mangle(string(srt))
+			u.s.declFun(fn, []Sort{SInt, SInt}, srt)
+			u.s.assume(eq(sx(fn, id, intLit(int64(k))), bt))
+		}
 	case *ssa.Range:
 		u.rangeInit(st, x)
 	case *ssa.Next:
